@@ -12,17 +12,25 @@ PID = 'C04'
 SHARD_SIZE = 150
 RULE = ('random type-directed expression trees (depth <= 4 quick / <= 7 thorough) over a pool of linear '
         '(MatrixOperator, ScalingOperator, IdentityOperator, ZeroOperator, MultiplyOperator, InnerProductOperator, '
-        'custom linear Functional), nonlinear (affine, x*x+b, PowerOperator, absolute, field-valued quadratic) and '
-        'Functional (L2NormSquared, L1Norm, weighted quadratic, Constant/ZeroFunctional) leaves on rn(1..3) and '
-        'cn(1..3); operators + - neg * @ / ** with operator/vector/scalar operands on either side, scalars from '
-        '{0,+-1,+-2,+-1/2,3,..} (int, float, numpy), ~8% deliberately ill-typed nodes; each tree is built by the '
-        'real overloads, its whole object tree (classes, stored scalars/vectors, domain, range, is_linear) and '
-        'its values at 2-3 integer points (out-of-place and in-place into a NaN-filled out) are compared with the '
-        'model inside Coq; a case is non-trivial when it has at least one arithmetic node; distinct by '
-        '(class skeleton of the built object | error class, source operator skeleton)')
+        'custom matrix operator, custom linear Functional), nonlinear (affine, x*x+b, PowerOperator, absolute, '
+        'field-valued quadratic) and Functional (L2NormSquared, L1Norm, weighted quadratic, Constant/ZeroFunctional) '
+        'leaves with out-of-place-only / in-place-only / dual _call signatures, on rn/cn, constant-weighted rn/cn and '
+        'uniform_discr spaces of size 1..3; operators + - neg * @ / ** and OperatorPointwiseProduct with '
+        'operator/vector/scalar operands on either side, scalars from {0,+-1,+-2,+-1/2,3} (+ imaginary parts on '
+        'complex spaces) written as int, float, numpy int64/float32/float64/complex128, leaves reused inside a '
+        'tree, ~3% deliberately ill-typed nodes, plus every ill-typed form of the syntax on every leaf kind; each '
+        'tree is built by the real overloads, its whole object tree (exact classes, merged scalars, stored vectors, '
+        'leaf identity, domain, range, is_linear, isinstance Functional) or its error class and its values at 2-3 '
+        'integer points (out-of-place and in-place into a NaN-filled out) are compared with the model inside Coq '
+        '(model: build, eval, eval_ip, the poisoned-buffer ipp, and the table interpreter denote); a case is '
+        'non-trivial when it has at least one arithmetic node; distinct by (class skeleton of the built object | '
+        'error class, source operator skeleton)')
 ASSUMPTIONS = ['exact arithmetic: all scalars/vectors/points are small integers or dyadic rationals, every float '
                'operation on the generated cases is exact (guarded by an exact-rational magnitude bound)',
-               'leaves are pure functions of x; their own correctness and call protocol are C03/C05',
+               'leaves are pure functions of x; called in place they overwrite `out` without reading it; their own '
+               'correctness and call protocol are C03/C05/C10',
+               'a leaf flagged linear is linear over the scalar field of its domain (premise of the theorems; probed '
+               'on 40 odl classes, RealPart/ImagPart on complex spaces violate it for complex scalars)',
                'one scalar field per expression (real trees on rn, complex trees on cn); operators between real '
                'and complex spaces are only probed']
 TRUSTED = ['C04/Model.v build/eval/eval_ip as a transcription of the overloads and _call bodies (tied by the '
